@@ -7,6 +7,11 @@
 # `c07hist` runs request SEQUENCES inside one process (token/open + tokencache as the server wraps it + signinit.Init + the
 # real signer modules) while the key file / certificate file / PGP certificate are replaced between requests; the model of
 # that mechanism is coq/C07/History.v (op 6 of C07.Run).
+# `c07pgp` mints OpenPGP certificates of many structures around the token key (primary / signing subkey / encryption subkey /
+# unrelated / several subkeys / several user ids / secret material in the configured file) and drives every PGP-family signer
+# (pgp detached, armored, text mode, clearsign, mini-clear, inline; rpm; deb) in process; the harness's own OpenPGP reader and
+# gpgv decide which key packet each emitted signature NAMES and whether the value verifies under exactly that key; the model of
+# that mechanism is coq/C07/Pgp.v (op 7 of C07.Run).
 import json, os
 from vlib.common import BUILD, REPO, GOENV, Lock, run as sh
 
@@ -14,10 +19,11 @@ FP = ["lib/x509tools:.SameKey", "lib/certloader:.LoadTokenCertificates", "lib/ce
       "lib/certloader:Certificate.Chain", "lib/certloader:.ParsePKCS12", "lib/pkcs7:SignatureBuilder.Sign", "lib/xmldsig:.Sign", "lib/xmldsig:.finishSignature",
       "internal/signinit:.Init", "token/filetoken:fileToken.GetKey", "signers/apk:Digest.Sign", "lib/fruit/xar:.appendSignatures", "signers/cosign:.sign",
       "signers/cosign:.attachCertificates", "token/tokencache:Cache.GetKey", "internal/signinit:.InitKey", "server:Server.serveSign",
-      "cmdline/token:.signCmd", "token/tokencache:.New"]
+      "cmdline/token:.signCmd", "token/tokencache:.New", "lib/pgptools:.ClearSign", "lib/pgptools:.DetachClearSign", "lib/signdeb:.Sign",
+      "signers/pgp:.sign", "signers/rpm:.sign", "signers/deb:.sign", "lib/certloader:.parsePGP"]
 KEYFILE = {"R1": 1, "R2": 2, "E1": 3}
 X509TAG = {"cR1": 11, "cR2": 12, "cE1": 13, "cBadForR1": 14}
-KEYID = {"R1": 1, "R2": 2, "E1": 3, "E2": 4, "E3": 5, "ED": 6}
+KEYID = {"R1": 1, "R2": 2, "E1": 3, "E2": 4, "E3": 5, "ED": 6, "R3": 7}
 # history signers: model site id (X.509) or PGP argument class, CertTypes, PGP?
 HIST_SIGNERS = {"cosign": (12, 1, False), "apk": (11, 1, False), "pgp": (5, 2, True), "rpm": (6, 2, True), "deb": (5, 2, True),
                 "ps": (1, 1, False), "jar": (4, 1, False), "appmanifest": (8, 1, False), "vsix": (10, 1, False)}
@@ -54,13 +60,16 @@ def supported(pub):
 
 
 def resolve(keys, name):
-    """the configuration's documented meaning: a section is used as is unless it is an alias, then the section it names"""
+    """the configuration's documented meaning: a section is used as is unless it is an alias, then the section it names;
+    an alias that names another alias is a configuration error (relic fix 1867fd2)"""
     by = {k["name"]: k for k in keys}
     k = by.get(name)
     if k is None:
         return None
     if k.get("alias"):
         k = by.get(k["alias"])
+        if k is not None and k.get("alias"):
+            return None
     if k is None or not k.get("token"):
         return None
     return k
@@ -195,13 +204,141 @@ def run_hist_replay(ctx, cases):
     return [c for c in cases if c.get("op") != "hist"] + [json.loads(l) for l in out.splitlines() if l.strip()]
 
 
+PGP_ERR_TEXT = {4: "certificate does not match key", 21: "no valid signing keys", 22: "signing key has no private key", 23: "signing key is encrypted"}
+
+
+def pgp_val(d):
+    """the certificate structure and the modes as input of C07.Run op 7"""
+    pk = {p["id"]: p for p in d["packets"]}
+
+    def kp(i):
+        return [i, vpub(pk[i]["pub"])]
+
+    def privopt(pkt, owner):
+        return [kp(pkt), False, [KEYID.get(owner, 0), vpub(pk[pkt]["pub"])]] if owner else []
+    idents = [[0, True, u["primary"], u["time"], True, True, u["sign"], False, False, False] for u in d["idents"]]
+    subs = [[kp(sb["pkt"]), sb["flags_valid"], False, sb["sign"], True, sb["expired"], False, False, sb["time"], privopt(sb["pkt"], sb["secret_of"])]
+            for sb in d["subs"] or []]
+    ent = [500, kp(d["primary"]), True, False, idents, subs, privopt(d["primary"], d.get("primary_secret_of"))]
+    modes = [[m["kind"], m["clearsign"], m["armor"], m["textmode"], m["mini"]] for m in d["modes"]]
+    return [7, [KEYID.get(d["key"], 0), vpub(d["key_pub"])], ent, modes, 7]
+
+
+def pgp_oracle(d, spec_fail, nontrivial, dist, notes):
+    """model-free, from the property text and RFC 4880 5.2.3.5 / 5.2.3.28: an emitted signature names (issuer key id, issuer
+    fingerprint) one key packet of the configured certificate and its value verifies under exactly that packet's key;
+    a certificate none of whose key packets is the token key is refused"""
+    pk = {p["id"]: p for p in d["packets"]}
+    has_token_packet = any(p["for"] == d["key"] for p in d["packets"])
+    layout = "certificate %s (%s; token key %s; key packets %s)" % (d["cert"], d["note"], d["key"],
+                                                                   ["%s%s=%s" % ("sub " if p["sub"] else "primary ", p["keyid"], p["for"]) for p in d["packets"]])
+    n = 0
+    for m in d["modes"]:
+        n += 1
+        k = "pgp/%s/err%d" % (m["mode"], m["err"])
+        dist[k] = dist.get(k, 0) + 1
+        case = dict(d, modes=[m])
+        where = "%s, signer mode %s" % (layout, m["mode"])
+        if m["err"] == 100:
+            spec_fail("C07:pgp-panic:" + m["mode"], where + ": " + m.get("err_text", "")[:160], case, False)
+            continue
+        if m["err"] != 0:
+            if m["out_exists"]:
+                spec_fail("C07:spec:pgp-output-after-error:" + m["mode"], where + ": refused (%s) but an output file was written" % m.get("err_text", ""), case)
+            if not has_token_packet or d["packets"][0]["for"] != d["key"]:
+                nontrivial.add("pgp:%s:%s:refused%d" % (d["cert"], m["mode"], m["err"]))
+            continue
+        nontrivial.add("pgp:%s:%s:signed" % (d["cert"], m["mode"]))
+        if not has_token_packet:
+            spec_fail("C07:spec:pgp-unrelated-certificate-signed:" + m["mode"], where + ": signed although no key packet of the certificate is the token key", case)
+        if m.get("read_err") or not m["sigs"]:
+            spec_fail("C07:pgp-output-not-inspected:" + m["mode"], where + ": the harness reader found no signature packet (%s)" % m.get("read_err", ""), case, False)
+            continue
+        for sg in m["sigs"]:
+            named = [x for x in (sg["keyid_pkt"], sg["fpr_pkt"]) if x != -1]
+            if not named:
+                spec_fail("C07:pgp-output-not-inspected:" + m["mode"], where + ": signature packet (%s) carries no issuer subpacket" % sg["where"], case, False)
+            elif 0 in named:
+                spec_fail("C07:spec:pgp-issuer-not-in-certificate:" + m["mode"],
+                          where + ": the signature (%s) names %s, which is no key packet of the configured certificate; value made by %s" % (sg["where"], sg["issuer"], sg["made_by"]), case)
+            elif len(set(named)) > 1:
+                spec_fail("C07:spec:pgp-issuer-keyid-fingerprint-disagree:" + m["mode"],
+                          where + ": issuer key id names the packet of %s, issuer fingerprint the packet of %s; value made by %s" %
+                          (pk[sg["keyid_pkt"]]["for"], pk[sg["fpr_pkt"]]["for"], sg["made_by"]), case)
+            elif not sg["own_ok"]:
+                p = pk[named[0]]
+                spec_fail("C07:spec:pgp-signature-not-under-named-key:" + m["mode"],
+                          where + ": relic emitted a signature (%s) that names %s key packet %s (key %s) as issuer, but the value was made by %s and does not verify under the named key%s" %
+                          (sg["where"], "subkey" if p["sub"] else "PRIMARY", p["keyid"], p["for"], sg["made_by"] or "an unknown key",
+                           "; gpgv: " + m["gpgv"] if m["gpgv"] != "n/a" else ""), case)
+            elif sg["made_by"] != [d["key"]]:
+                notes.setdefault("value made by a key other than the token key (secret material in the configured file); signature consistent", set()).add(
+                    "%s/%s: named %s, made by %s" % (d["cert"], m["mode"], pk[named[0]]["for"], sg["made_by"]))
+        if m["gpgv"] == "BAD":
+            spec_fail("C07:spec:pgp-signature-not-under-named-key:" + m["mode"], where + ": gpgv with the configured certificate as its only keyring reports BAD signature (%s)" % m.get("gpgv_out", "")[-160:], case)
+        elif m["gpgv"] == "NOKEY":
+            spec_fail("C07:spec:pgp-issuer-not-in-certificate:" + m["mode"], where + ": gpgv finds no key of the configured certificate for the issuer the signature names", case)
+        elif m["gpgv"] not in ("GOOD", "n/a"):
+            notes.setdefault("gpgv verdicts other than good/bad (key usage flags, unsupported layout)", set()).add("%s/%s: %s" % (d["cert"], m["mode"], m["gpgv"][:60]))
+    return n
+
+
+def pgp_correspond(d, mo, corr_fail):
+    """model (C07/Pgp.v) vs implementation on one certificate structure"""
+    mload, must_fail, file_wf, mmodes = mo
+    if d["load_err"] in (0, 4) and mload != d["load_err"]:
+        corr_fail("C07:correspondence:pgp-loader", "certificate %s: model load status %d vs LoadTokenCertificates %d (%s)" % (d["cert"], mload, d["load_err"], d.get("load_text", "")), dict(d, modes=[]))
+        return
+    if d["load_err"] == 0:
+        want = [[d["primary"], KEYID.get(d["key"], 0)]] + sorted([sb["pkt"], KEYID.get(sb["secret_of"], 0)] for sb in d["subs"] or [] if sb["secret_of"])
+        got = sorted([pv["pkt"], KEYID.get(pv["key_for"], 0)] for pv in d.get("privs") or [] if pv["where"] == "entity.PrivateKey") + \
+            sorted([pv["pkt"], KEYID.get(pv["key_for"], 0)] for pv in d.get("privs") or [] if pv["where"] != "entity.PrivateKey")
+        if want != got:
+            corr_fail("C07:correspondence:pgp-loader-private-packets", "certificate %s: after the load the model holds private-key packets (packet, key) %s, the entity holds %s" %
+                      (d["cert"], want, [(pv["where"], pv["pkt"], pv["key_for"], pv["consistent"]) for pv in d.get("privs") or []]), dict(d, modes=[]))
+            return
+    for m, mm in zip(d["modes"], mmodes):
+        mstatus, msigs = mm
+        what = "certificate %s mode %s" % (d["cert"], m["mode"])
+        bad = None
+        if m["err"] in (2, 100):
+            bad = "implementation fails with an error the model does not have: %s" % m.get("err_text", "")[:100]
+        elif mstatus != m["err"]:
+            bad = "model status %d (%s) vs implementation %d (%s)" % (mstatus, PGP_ERR_TEXT.get(mstatus, "signed" if mstatus == 0 else "?"), m["err"], m.get("err_text", "")[:80] or "signed")
+        elif mstatus == 0 and not m.get("read_err"):
+            obs = sorted([sg["keyid_pkt"], sg["fpr_pkt"], KEYID.get(sg["made_by"][0], 0) if len(sg["made_by"]) == 1 else -1] for sg in m["sigs"])
+            mod = sorted([x[0], x[1], x[2]] for x in msigs)
+            if obs != mod:
+                bad = "model emits (issuer key id packet, issuer fingerprint packet, signing key) %s, the output carries %s" % (mod, obs)
+            elif not all(x[3] for x in msigs):
+                bad = "the model's own output fails spec_pgp_sig_ok"
+        if bad:
+            corr_fail("C07:correspondence:pgp-sign", what + ": " + bad, dict(d, modes=[m]))
+            return
+
+
+def run_pgp_replay(ctx, cases):
+    """replay: mint the recorded certificate structures again and run them through the real code"""
+    ps = [c for c in cases if c.get("op") == "pgpsub"]
+    if not ps:
+        return cases
+    path = os.path.join(ctx.scratch, "pgp-replay.json")
+    json.dump([{"cert": c["cert"]} for c in ps], open(path, "w"))
+    GOENV["VERIF_REPO"] = REPO
+    rc, out, err = ctx.drv(["c07pgp", path], timeout=600)
+    if rc != 0:
+        ctx.violation("C07:driver-crash", "driver c07pgp failed on replay: %s" % err[-600:], {"stderr": err[-3000:]}, False)
+        return [c for c in cases if c.get("op") != "pgpsub"]
+    return [c for c in cases if c.get("op") != "pgpsub"] + [json.loads(l) for l in out.splitlines() if l.strip()]
+
+
 def run(ctx, replay=None):
     st = ctx.prepare(["C07_gen"], ["C07"], "C07.Run")
     if not st["harness_ok"]:
         return ctx.finish("proof", ctx.proof_coverage([], FP), [])
     if replay:
         rp = json.load(open(replay))
-        cases = run_hist_replay(ctx, rp.get("cases", []))
+        cases = run_pgp_replay(ctx, run_hist_replay(ctx, rp.get("cases", [])))
     else:
         cases = []
         env_relic = os.path.join(BUILD, "relic")
@@ -211,7 +348,7 @@ def run(ctx, replay=None):
             ctx.violation("C07:relic-build", "relic binary does not build: " + err[-300:], {"stderr": err[-2000:]}, False)
         GOENV["VERIF_RELIC"] = env_relic        # ctx.drv passes GOENV to the driver
         GOENV["VERIF_REPO"] = REPO
-        for cmd in ("c07lib", "c07", "c07hist"):
+        for cmd in ("c07lib", "c07", "c07hist", "c07pgp"):
             rc, out, err = ctx.drv([cmd], timeout=600)
             if rc != 0:
                 ctx.violation("C07:driver-crash", "driver %s failed: %s" % (cmd, err[-600:]), {"stderr": err[-3000:]}, False)
@@ -237,9 +374,19 @@ def run(ctx, replay=None):
     other_refusals = {}
     seen_keys = set()
     n_hist, n_hist_steps, hist_skipped = 0, 0, 0
+    n_pgp, n_pgp_signed = 0, 0
+    pgp_notes = {}
     for d in cases:
         op = d["op"]
         n_eval += 1
+        if op == "pgpsub":
+            n_pgp += 1
+            k = pgp_oracle(d, spec_fail, nontrivial, dist, pgp_notes)
+            n_eval += k - 1
+            n_pgp_signed += sum(1 for m in d["modes"] if m["err"] == 0)
+            vals.append(pgp_val(d))
+            meta.append(d)
+            continue
         if op == "hist":
             n_hist += 1
             k = hist_oracle(d, spec_fail, nontrivial, dist)
@@ -337,6 +484,9 @@ def run(ctx, replay=None):
                     if sec is None or sec.get("keyfile") != rq["key_for"] or sec.get("x509", "") != rq["x509"]:
                         spec_fail("C07:spec:lookup-wrong-key", "GetKey(%s) returned key %s / certificate file %s, the configuration says %s" %
                                   (rq["name"], rq["key_for"], rq["x509"], sec and (sec.get("keyfile"), sec.get("x509"))), dict(d, reqs=d["reqs"]))
+                    if rq.get("again", "same") != "same":
+                        spec_fail("C07:spec:lookup-not-idempotent", "GetKey(%s) returned section %s, but looking that section up again by its own name gives: %s" %
+                                  (rq["name"], (sec or {}).get("name"), rq["again"]), d)
                     if rq["leaf"] != -1 and rq["leaf_for"] != rq["key_for"]:
                         spec_fail("C07:spec:lookup-leaf-other-key", "InitKey(%s): leaf for %s with key %s" % (rq["name"], rq["leaf_for"], rq["key_for"]), d)
                     nontrivial.add("lookup:%s:%s:%s" % (rq["name"], rq["key_for"], rq["x509"]))
@@ -435,6 +585,8 @@ def run(ctx, replay=None):
                         corr_fail("C07:correspondence:lookup", "model %s vs GetKey(%s) -> %s/%s (%s)" % (mo, rq["name"], rq["key_for"], rq["x509"], rq.get("err")), d)
                     if mstatus == 0 and not magrees:
                         corr_fail("C07:correspondence:lookup-spec", "model lookup disagrees with spec_resolve for %s" % rq["name"], d)
+            elif op == "pgpsub":
+                pgp_correspond(d, m, corr_fail)
             elif op == "hist":
                 if len(m) != len(d["_idx"]):
                     corr_fail("C07:correspondence:history", "model answered %d requests, history %s has %d" % (len(m), d["id"], len(d["_idx"])), d)
@@ -482,12 +634,18 @@ def run(ctx, replay=None):
         "config/tokencache/InitKey/filetoken lookup conditions; history: inventory of package-level variables (internal/signinit, lib/certloader, signers, "
         "token/tokencache, token/filetoken, signers/{cosign,apk,pgp,rpm,deb}), field lists of Cache/cachedKey/fileToken/fileKey/Certificate/Server, data-flow tables of "
         "InitKey / Init / serveSign / signCmd (bundle returned or signed with = result of LoadTokenCertificates of this invocation), Init certificate-type conditions, "
-        "CertTypes of the 18 signer modules",
+        "CertTypes of the 18 signer modules; OpenPGP: statement list of the loader's PGP block, the halves of its packet.PrivateKey literal, inventory of "
+        "packet.PrivateKey literals / .PrivateKey assignments in lib/certloader, entity / bundle uses of ClearSign, DetachClearSign, signdeb.Sign and the pgp / rpm / deb "
+        "signers, the signing-function choice of signers/pgp, packet.Config fields, and from the module cache at the go.mod versions: go-crypto signingKeyByIdUsage "
+        "conditions and results, detachSign guards, createSignaturePacket / Signature.Sign / clearsign issuer fields, go-rpmutils makeSignature",
         "harness drv-c07: real relic functions in process + real relic binary on functest fixtures; keys, certificates, PKCS#12 and PGP material minted per run "
         "(Go crypto, go-pkcs12, go-crypto openpgp); output inspection by raw certificate scan, own APK v2 / cosign / PGP packet readers, and relic's verifier as extractor "
-        "with the signature value re-checked under the true key by Go crypto",
+        "with the signature value re-checked under the true key by Go crypto; OpenPGP outputs: harness-owned RFC 4880 reader (key packets + v4 fingerprints, armor, cleartext "
+        "framework, one-pass/literal/signature, issuer subpackets, digest recomputation, RPM header and ar framing) with crypto/rsa / crypto/ecdsa, and gpgv with the configured "
+        "certificate as its only keyring",
         "symbolic signatures in the model (value = key x message); X.509/PGP parsing, the third-party PGP/RPM signing libraries and pkcs11/cloud tokens are not modelled "
-        "(file token stands for all tokens); histories: requests are sequential (no interleaving of two requests), the clock enters as a per-request "
+        "(file token stands for all tokens); OpenPGP: go-crypto's parser is not modelled (its output - primary key, subkeys with binding flags/times/expiry, user ids, secret "
+        "packets of the file - is the model's input; identities carry a self-signature), go-crypto key selection is hand-modelled around generated conditions; histories: requests are sequential (no interleaving of two requests), the clock enters as a per-request "
         "'cached entry still fresh' flag, the file token re-reads the key file on every GetKey; curve identifiers: SameKey ignores them, theorems assume keys with equal coordinates lie on the same curve (true of parsed keys)"], FP)
     samples = [dict((k, d.get(k)) for k in ("op", "scenario", "sigtype", "key", "exit", "found_for", "rv_leaf_for", "sig_true_key")) for d in cases if d["op"] == "e2e"][5:8]
     cov.update({"evaluations": n_eval, "distinct_nontrivial": len(nontrivial),
@@ -500,9 +658,18 @@ def run(ctx, replay=None):
                         "file, sign; replace the certificate only; two keys alternating under one name; both replaced; alias and shared certificate file; PKCS#12 key files; "
                         "files removed / corrupted / restored; first use mismatched; entries expiring mid-history; random histories; for cosign, APK v2, pgp, rpm, deb "
                         "(no second guard) and ps, jar, appmanifest, vsix (second guard). "
+                        "OpenPGP certificate structures (token key = primary; = bound cross-signed signing subkey of another primary, newest / oldest of several, expired, "
+                        "sign+encrypt; = encryption-only subkey; = subkey without key flags; unrelated; foreign or own signing subkey beside a matching primary; 1-3 user ids, "
+                        "certify-only primary; ECDSA token vs RSA certificate; transferable SECRET key as the configured file) x pgp detached / armor / textmode / armor+textmode / "
+                        "clearsign / mini-clear / inline / inline+armor, rpm, deb with the file token. "
                         "distinct_nontrivial = accepted configurations plus refused genuinely mismatched ones",
                 "samples": samples, "input_distribution": dist, "unrelated_refusals": other_refusals, "spec_mismatches": n_spec, "model_mismatches": n_corr,
+                "pgp_certificate_structures": n_pgp, "pgp_signed_outputs_checked": n_pgp_signed,
+                "pgp_observations": dict((k, sorted(v)[:12]) for k, v in pgp_notes.items()),
                 "histories": n_hist, "history_sign_steps": n_hist_steps, "histories_without_correspondence_timing": hist_skipped,
-                "refuted_witnesses": ["same_key_full_refuted / load_full_refuted: SameKey ignores the curve identifier; witness PEc 1 5 7 vs PEc 2 5 7 "
+                "refuted_witnesses": ["pgp_token_key_statement_refuted: when the configured pgpcertificate file is a transferable SECRET key with an unencrypted signing subkey, "
+                                      "the openpgp-selected modes sign with the secret from the FILE, not with the token key (real code: certificate 'secret-file-signing-subkey', "
+                                      "see pgp_observations); the signature names that subkey and verifies under it, so the property as stated holds",
+                                      "same_key_full_refuted / load_full_refuted: SameKey ignores the curve identifier; witness PEc 1 5 7 vs PEc 2 5 7 "
                                       "(real code: SameKey(E1, {P-384, E1.X, E1.Y}) = true; not reachable through certificate parsing, which checks the point is on the curve)"]})
     return ctx.finish("proof", cov, ["symbolic signature idealisation", "EC keys with equal coordinates are on the same curve", "file token stands for all token types"])
